@@ -1,7 +1,8 @@
 #!/bin/bash
 # ./seedcheck.sh <Cnn> [extra check ids...]  -- confirm a sub-agent's seeded change in /tmp/seed_<Cnn>, run our quick check(s) against it, store it under /verif/seeded/<Cnn>/
 p=$1; shift; others="$@"
-wt=/tmp/seed_$p
+wt=${WT:-/tmp/seed_$p}      # WT=/tmp/seed2_C03 NAME=C03-2 ./seedcheck.sh C03   for later rounds
+name=${NAME:-$p}
 [ -f $wt/patch.diff ] || { echo "no patch"; exit 2; }
 cd $wt
 PYTHONPATH=$wt timeout 600 /venv/bin/python demo.py > /tmp/seed_${p}_demo_with.log 2>&1; with=$?
@@ -9,11 +10,11 @@ git stash -q; PYTHONPATH=$wt timeout 600 /venv/bin/python demo.py > /tmp/seed_${
 suite=$(PYTHONPATH=$wt /venv/bin/python -m pytest -q -p no:cacheprovider -n 8 tests 2>&1 | tail -1)
 echo "demo with change: exit $with; without: exit $without; suite: $suite"
 cd /verif
-mkdir -p seeded/$p; cp $wt/patch.diff seeded/$p/patch.diff; cp $wt/demo.py seeded/$p/demo.py
+mkdir -p seeded/$name; cp $wt/patch.diff seeded/$name/patch.diff; cp $wt/demo.py seeded/$name/demo.py
 res=""
 for c in $p $others; do
-  out=$(timeout 2400 ./selftest $c seeded/$p/patch.diff 2>&1 | grep -a SELFTEST)
+  out=$(timeout 2400 ./selftest $c seeded/$name/patch.diff 2>&1 | grep -a SELFTEST)
   echo "$out"; res="$res | $c: $(echo "$out" | sed 's/SELFTEST [A-Z0-9]* patch.diff: //')"
 done
-echo "$res" > seeded/$p/check_result.txt
-echo "with=$with without=$without suite=$suite" >> seeded/$p/check_result.txt
+echo "$res" > seeded/$name/check_result.txt
+echo "with=$with without=$without suite=$suite" >> seeded/$name/check_result.txt
